@@ -18,6 +18,7 @@ Decided statically (DESIGN.md section 5, C15):
            WriteSizeCalculator is the one selected for a WriteStream, or accounts exactly the same byte count.
   R-C15-6  the array type behind BufferWriter::buffer keeps its cached (pointer, size) in step with the storage it owns
            across moves (special-member facts of the record + bodies of user-provided move operations).
+  R-C15-7  the view returned by getWrittenView() shares the allocation it points into (not just the owner object).
 Not decided: equality of the values after a round trip (needs the run-time contents), wrap-around of
 `cursor + size` for sizes near SIZE_MAX, behaviour after user code modified the public cursor/buffer members.
 """
@@ -1536,6 +1537,8 @@ def show_items(items):
             out.append('RESIZE(%s,%s)' % (show_path(it[1]), show(it[2])))
         elif k == 'APPEND':
             out.append('APPEND(%s,%s)' % (show_path(it[1]), show(it[2])))
+        elif k == 'GROW':
+            out.append('GROW(%s,%s)' % (show_path(it[1]), it[2]))
         elif k == 'REPEAT':
             out.append('REPEAT(%s,[%s])' % (show(it[1]), ' '.join(show_items(it[3]))))
         elif k == 'COUNT':
@@ -1698,6 +1701,11 @@ class SigBuilder:
                 p = self.path_of(obj, env)
                 if p is not None:
                     return Poly.atom(('size', p))
+            if n.get('kind') == 'CallExpr' and q in ('std::min', 'std::max') and len(args) == 2:
+                a_, b_ = self.length(args[0], env), self.length(args[1], env)
+                if a_ is not None and b_ is not None:
+                    ka, kb = sorted((show(a_), show(b_)))
+                    return Poly.atom((q.split('::')[-1], ka, kb))
             if n.get('kind') == 'CallExpr' and q in ('strlen', 'std::strlen') and len(args) == 1:
                 p = self.path_of(args[0], env)
                 if p is not None and pointee(env['ptype'].get(p, '')) == 'char':
@@ -2097,11 +2105,41 @@ def total_bytes(items):
     return tot
 
 
+def grow_step(item, path):
+    """`if (i == c.size()) c.resize(m * c.size())` (m >= 2) or `c.resize(c.size() + k)` inside the loop that fills c[i]:
+    returns a text describing the growth, else None"""
+    if item[0] != 'IF' or len(item[1]) != 1 or item[3] or len(item[2]) != 1 or item[2][0][0] != 'RESIZE' or item[2][0][1] != path:
+        return None
+    p, op = item[1][0]
+    sz = ('size', path)
+    iv = [a for a in p.atoms() if isinstance(a, tuple) and a[0] == 'ivar']
+    if len(iv) != 1 or op not in ('==', '<='):
+        return None
+    if p not in (Poly.atom(iv[0]) - Poly.atom(sz), Poly.atom(sz) - Poly.atom(iv[0])):
+        return None
+    g = item[2][0][2]
+    co = g.coeff(sz)
+    if co is None:
+        return None
+    m, k = co[0].const_value(), co[1].const_value()
+    if m is None or k is None or not ((m >= 2 and k >= 0) or (m == 1 and k >= 1)):
+        return None
+    return show(g)
+
+
 def flatten(items):
     """REPEAT(n, c, [RAW(c[i], k)]) over contiguous storage is the byte block DATA(c, n*k)"""
     out = []
     for it in items:
         if it[0] == 'REPEAT':
+            body = []
+            for b_ in it[3]:
+                g_ = grow_step(b_, it[2])
+                if g_ is not None:
+                    out.append(('GROW', it[2], g_, it[1], b_[4]))
+                else:
+                    body.append(b_)
+            it = ('REPEAT', it[1], it[2], body, it[4])
             sub = flatten(it[3])
             if len(sub) == 1 and sub[0][0] == 'RAW' and sub[0][1] == ('elem', it[2]):
                 out.append(('DATA', it[2], it[1] * sub[0][2], sub[0][2], it[4]))
@@ -2236,10 +2274,20 @@ def _pair_flat(W, R, problems, bind, sizes, aw, ar):
         return (' on the path where ' + ' && '.join(show_rel(c) for c in cs)) if cs else ''
 
     emptied = []          # containers the writer emitted with length 0 and the reader did not visit
+    grown = {}            # containers enlarged on demand inside their fill loop: path -> (step, initial size, loc)
     i = j = 0
     while True:
-        while j < len(R) and R[j][0] in ('RESIZE', 'APPEND'):
-            if R[j][0] == 'APPEND':
+        while j < len(R) and R[j][0] in ('RESIZE', 'APPEND', 'GROW'):
+            if R[j][0] == 'GROW':
+                # the loop enlarges the destination whenever the index reaches its size: every element access is in range
+                # (given a non-empty start), but the size it ends with is whatever the last growth step produced
+                if sizes.get(R[j][1]) is None:
+                    problems.append(('no-resize', 'the reader grows `%s` on demand but never gives it an initial size%s'
+                                     % (show_path(R[j][1]), cond_text()), R[j][4]))
+                    return
+                grown[R[j][1]] = (R[j][2], sizes[R[j][1]], R[j][4])
+                sizes[R[j][1]] = rsub(R[j][3])
+            elif R[j][0] == 'APPEND':
                 # elements are appended one by one: the destination ends up with (what it held before) + count elements
                 have0 = sizes.get(R[j][1])
                 if have0 is None:
@@ -2255,6 +2303,7 @@ def _pair_flat(W, R, problems, bind, sizes, aw, ar):
                 sizes[R[j][1]] = rsub(R[j][2])
             else:
                 sizes[R[j][1]] = rsub(R[j][2])
+                grown.pop(R[j][1], None)        # an explicit resize after the growth fixes the final length
             j += 1
         # a block / repeat of length 0 is not on the wire
         if i < len(W) and W[i][0] in ('DATA', 'REPEAT') and norm(W[i][2] if W[i][0] == 'DATA' else W[i][1]) == Poly.const(0) and \
@@ -2334,7 +2383,12 @@ def _pair_flat(W, R, problems, bind, sizes, aw, ar):
                 return
         i += 1
         j += 1
-    while j < len(R) and R[j][0] in ('RESIZE', 'APPEND'):
+    while j < len(R) and R[j][0] in ('RESIZE', 'APPEND', 'GROW'):
+        if R[j][0] == 'RESIZE':
+            grown.pop(R[j][1], None)
+        if R[j][0] == 'GROW':
+            j += 1
+            continue
         if R[j][0] == 'APPEND' and sizes.get(R[j][1]) is None:
             problems.append(('no-clear', 'the reader appends to `%s` without emptying it first%s' % (show_path(R[j][1]), cond_text()),
                              R[j][3]))
@@ -2346,6 +2400,11 @@ def _pair_flat(W, R, problems, bind, sizes, aw, ar):
         problems.append(('shape', 'the %s has the additional item(s) %s%s' % ('writer' if i < len(W) else 'reader', ' '.join(rest),
                                                                              cond_text()),
                          (W[i] if i < len(W) else R[j])[-1] if isinstance((W[i] if i < len(W) else R[j])[-1], str) else '?'))
+        return
+    for path, (step, init, loc) in grown.items():
+        problems.append(('dest-size-not-trimmed', 'the reader sizes `%s` to %s and enlarges it to %s whenever the index reaches its '
+                         'size, but never sets it to the length read: it ends with the size of the last growth step, the elements '
+                         'beyond the length read are value-initialised extras%s' % (show_path(path), show(init), step, cond_text()), loc))
         return
     # the destination of a container that was written empty must still be given length 0: otherwise a destination that is
     # reused (record loops, elements kept by vector::resize) keeps its previous contents
@@ -2629,6 +2688,57 @@ def check_buffer_moves(ctx, tu):
     ctx.floor(R, n, 2, 'move constructor and move assignment of the BufferWriter buffer type')
 
 
+def check_view_lifetime(ctx, tu):
+    """R-C15-7: the view handed out by FixedBufferWriter::getWrittenView caches a pointer into the writer's storage; it
+    must keep that *allocation* alive, not merely the array object that currently owns it (which can be re-seated)"""
+    R = 'R-C15-7'
+    ctx.describe(R, 'the view type returned by getWrittenView() owns (shares) the allocation its cached pointer points into: a '
+                 'member of the allocation-owning type, not a handle to a re-assignable owner object')
+    fs = find_fn(tu, NET + 'FixedBufferWriter::getWrittenView')
+    if not fs:
+        ctx.broken('%s: anchor FixedBufferWriter::getWrittenView not found' % R)
+        return
+    m = re.search(r'shared_ptr<(rkcommon::utility::\w+<[^()]*?>)>\s*\(', fs[0]['fty'].replace('utility::FixedArray<uint8_t>::View',
+                                                                                            'rkcommon::utility::FixedArrayView<unsigned char>'))
+    vt = None
+    for r in tu.records.values():
+        if r.get('tmpl') == UTIL + 'FixedArrayView' and r.get('targs') and r['targs'][0].get('t') == 'unsigned char':
+            vt = r
+    if vt is None:
+        ctx.broken('%s: record FixedArrayView<unsigned char> not found' % R)
+        return
+    owner = tu.records_by_type.get(UTIL + 'FixedArray<unsigned char>')
+    inst = 'FixedArrayView<unsigned char>'
+    file = 'rkcommon/utility/FixedArrayView.h'
+    key = '%s|%s|FixedArrayView|' % (R, file)
+    if owner is None:
+        ctx.undecided(R, inst, 'record FixedArray<unsigned char> not in the facts', file)
+        return
+    alloc_fields = [fd for fd in owner['fields'] if re.match(r'^std::(shared_ptr|unique_ptr)<unsigned char', fd['ct'])]
+    reseat = [f for f in tu.functions.values() if f.get('rec') == UTIL + 'FixedArray' and f['q'].split('::')[-1] == 'operator=']
+    pins, handles, other = [], [], []
+    for fd in vt['fields']:
+        ct = fd['ct'].replace('const ', '')
+        if ct == UTIL + 'FixedArray<unsigned char>' and alloc_fields:
+            pins.append(fd)
+        elif re.match(r'^std::shared_ptr<unsigned char', ct):
+            pins.append(fd)
+        elif re.match(r'^(std::(shared_ptr|weak_ptr)<)?rkcommon::utility::FixedArray<unsigned char>\s*[>*&]', ct):
+            handles.append(fd)
+        else:
+            other.append(fd)
+    if pins:
+        ctx.ok(R, inst, 'member `%s` (%s) shares the allocation the view points into' % (pins[0]['name'], pins[0]['ct']), file)
+    elif handles and (reseat or owner.get('copy_assign', {}).get('has')):
+        ctx.violation(R, inst, 'the view keeps only `%s` (%s), a handle to the FixedArray *object*; FixedArray can be assigned to '
+                      '(operator= replaces its allocation), after which the pointer cached in a view obtained earlier from '
+                      'getWrittenView() refers to freed memory' % (handles[0]['name'], handles[0]['ct']), file,
+                      key=key + 'view-pins-owner-not-allocation')
+    else:
+        ctx.undecided(R, inst, 'no member of the view is recognised as keeping the viewed allocation alive (members: %s)'
+                      % ', '.join('%s %s' % (fd['ct'], fd['name']) for fd in vt['fields']), file)
+
+
 def trivially_copyable_witness(ctx, tu, types):
     """set of type names that are NOT trivially copyable, decided by the compiler on a generated unit of
     static_asserts (one per line); None if the unit cannot be compiled for another reason"""
@@ -2672,11 +2782,13 @@ def run(ctx):
     check_buffers(ctx, tus)
     check_signatures(ctx, tus['drivers/c15_streams.cpp'])
     check_buffer_moves(ctx, tus['drivers/c15_streams.cpp'])
+    check_view_lifetime(ctx, tus['rkcommon/networking/DataStreaming.cpp'])
     if ctx.tier == 'thorough':
         more = ctx.front.parse_many([dict(unit=u, config='DEBUG', std='gnu++17') for u in units])
         tus2 = dict(zip(units, more))
         check_buffers(ctx, tus2)
         check_signatures(ctx, tus2['drivers/c15_streams.cpp'])
         check_buffer_moves(ctx, tus2['drivers/c15_streams.cpp'])
+        check_view_lifetime(ctx, tus2['rkcommon/networking/DataStreaming.cpp'])
     from rkstatic import selftest
     selftest.run(ctx)
